@@ -75,7 +75,10 @@ def relational(cases, impl):
     for g, idx in groups.items():
         def key(i):
             f = parse_fields(impl[i])
-            return (f.get('log'), f.get('out'), f.get('errs'), f.get('q'))
+            out = f.get('out')
+            if out is None and 'tr' in f:      # PROC: the bytes handed to the adapter
+                out = ''.join(t[2:] for t in parse_list(f.get('tr', '[]')) if t.startswith('W:')) or '-'
+            return (f.get('log'), out, f.get('errs'), f.get('q'))
         ref = key(idx[0])
         for i in idx[1:]:
             if key(i) != ref:
@@ -111,4 +114,11 @@ def variant_cases(tier, rng, ifaces, names, n, g0=0):
             text = b';'.join(u.render(rng, 'var', wsb) for u in units)
             term = rng.choice([b'\n', b'\r\n', bytes([wsb]) + b'\n', b' \r\n'])
             out.append(Case(f'RUN {iface.name} std {hx(text + term)}', oracle, meta))
+            if v % 4 == 0 and len(text) + len(term) <= 250:
+                # the same variant streamed through process, read boundaries everywhere (also inside runs of white space)
+                full = text + term
+                sizes, tot = [], 0
+                while tot < len(full):
+                    sizes.append(rng.choice([1, 1, 2, 3, 4, 7])); tot += sizes[-1]
+                out.append(Case(f'PROC {iface.name} 256 {hx(full)} {",".join(map(str, sizes))}', oracle, dict(meta, kind='variant-PROC')))
     return out
